@@ -783,11 +783,13 @@ func (w *world) dial(g *nbio.Engine) bool {
 				slot = dirName[dir] + " timer, armed for " + rel(ts.t[dir].when)
 			}
 		}
-		how := "the connect completed after DialAsyncTimeout had returned"
+		// two different defects: a dial timer that the completion of the connect does not clear, and
+		// a dial timer that is armed only after the connect was already reported
+		when, how := "after-dial-returned", "the connect completed after DialAsyncTimeout had returned"
 		if reportedAtReturn {
-			how = "the connect completed and was reported while DialAsyncTimeout was still running"
+			when, how = "during-dial-call", "the connect completed and was reported while DialAsyncTimeout was still running"
 		}
-		w.failf("stale-dial-timer origin=%s|the dial reported success (%s), the connection is established and idle, yet %d timer(s) are armed: %v (connection slot: %s); it would close the established connection with the dial timeout %v after the dial", w.origin, how, n, vtime.ArmedNames(), slot, dialTimeout)
+		w.failf("stale-dial-timer origin=%s connect=%s|the dial reported success (%s), the connection is established and idle, yet %d timer(s) are armed: %v (connection slot: %s); it would close the established connection with the dial timeout %v after the dial", w.origin, when, how, n, vtime.ArmedNames(), slot, dialTimeout)
 		return false
 	}
 	w.counters["dialed_connections"]++
@@ -1177,10 +1179,19 @@ func build(tier string) []*vkit.Scenario {
 		{[]op{wr(5), W(5)}, both, true}, {[]op{W(5), wr(5), P}, both, true}, {[]op{wr(5), W(5), P}, onlyT, false}, {[]op{W(5), wr(5), wr(1)}, onlyT, false},
 		{[]op{W(5), C}, onlyT, true}, {[]op{D(5), C, R(5)}, onlyT, false}, {[]op{R(5), W(9)}, onlyT, true},
 	}
-	for _, x := range dlists {
-		if !x.quick && !thorough {
-			continue
+	if thorough {
+		// every list of length <= 2 on a connection from DialAsyncTimeout
+		seen := map[string]bool{}
+		for _, x := range dlists {
+			seen[opsString(x.ops)] = true
 		}
+		for _, l := range lists(2) {
+			if !seen[opsString(l)] {
+				dlists = append(dlists, dl{l, onlyT, false})
+			}
+		}
+	}
+	for _, x := range dlists {
 		l := x.ops
 		nD := 0
 		for _, o := range l {
@@ -1205,14 +1216,14 @@ func build(tier string) []*vkit.Scenario {
 			modes = ekit.Modes
 		}
 		origins := x.origins
-		if thorough && len(l) <= 2 {
-			origins = append(append([]string(nil), origins...), "dialTimm")
+		if thorough {
+			origins = both
+			if x.quick && len(l) <= 2 {
+				origins = []string{"dial", "dialT", "dialTimm"}
+			}
 		}
 		for _, o := range origins {
 			for _, m := range modes {
-				if !thorough && m == ekit.ONESHOT && o == "dial" {
-					continue
-				}
 				add(cfg{mode: m, origin: o, ops: l, p: p}, 600*float64(len(l)))
 			}
 		}
